@@ -3,13 +3,14 @@ import json
 import os
 
 import common
-from . import gradual, scoregen, decoder, convert
+from . import gradual, scoregen, decoder, convert, builders
 
 REGISTRY = {}
 REGISTRY.update(gradual.REGISTRY)
 REGISTRY.update(scoregen.REGISTRY)
 REGISTRY.update(decoder.REGISTRY)
 REGISTRY.update(convert.REGISTRY)
+REGISTRY.update(builders.REGISTRY)
 
 
 def setup():
@@ -33,7 +34,7 @@ def replay(path):
     obj = json.load(open(path))
     prop = obj["property"]
     kind = obj["replay"].get("kind")
-    for mod in (gradual, scoregen, decoder, convert):
+    for mod in (gradual, scoregen, decoder, convert, builders):
         if kind in mod.REPLAY_KINDS:
             return mod.replay(prop, obj)
     common.log("no replay handler for kind %r" % kind)
